@@ -1,6 +1,6 @@
 #!/bin/bash
 # run_all.sh <quick|thorough> : every claimed check against /repo, sequentially
-cd /verif
+cd "$(dirname "$0")/.."
 tier=${1:-quick}
 rc=0
 for p in C03 C08 C09 C14 C18 C19 C20; do
@@ -11,5 +11,5 @@ for p in C03 C08 C09 C14 C18 C19 C20; do
   grep -h "VIOLATION\|KNOWN-FINDING\|HARNESS-ERROR" .work/runall-$p.out .work/runall-$p.err
   [ $e -ne 0 ] && rc=1
 done
-python3-vt scripts/validate.py
+python3-vt scripts/validate.py "$(pwd)"
 exit $rc
